@@ -312,7 +312,7 @@ class Gaussian(Distribution):
             raise NotImplementedError("Gradient not implemented for distribution {} with geometry {}".format(self,self.geometry))
 
         if not callable(self.mean): # for prior
-            return -self._apply_prec(val - self.mean)
+            return -self._apply_prec((val - self.mean).T)
         elif hasattr(self.mean, "gradient"): # for likelihood
             model = self.mean
             dev = val - model.forward(*args, **kwargs)
